@@ -499,6 +499,24 @@ func maxInt(a, b int) int {
 var attrOrderAll = goOnlyResult{Stream: "attribute_order", Rule: "a node's attributes are a set keyed by name: the same case with its attribute list reversed (only when the names are distinct) must have the same outcome -- in particular an attribute that makes Init refuse the node must do so wherever it stands", Violations: []string{}}
 var aliasAll = goOnlyResult{Stream: "aliased_operands", Rule: "when the first two inputs have one element type and shape: passing the SAME tensor object for both must give what passing the first input and a separate copy of it gives", Violations: []string{}}
 
+var determAll = goOnlyResult{Stream: "determinism", Rule: "the same case evaluated three more times on fresh operator instances and fresh tensors gives the same outcome every time (nothing may depend on map iteration order, on scheduling or on what earlier calls left behind)", Violations: []string{}}
+
+func determinismObservation(op string, attrs []attr, mkIns func() []tensor.Tensor, obs string) {
+	for i := 0; i < 3; i++ {
+		determAll.N++
+		if got := observe(op, attrs, mkIns()); got != obs {
+			if len(determAll.Violations) < 10 {
+				ap := make([]string, len(attrs))
+				for i, x := range attrs {
+					ap[i] = x.gallina()
+				}
+				determAll.Violations = append(determAll.Violations, fmt.Sprintf("%s [%s] on %s: evaluation %d gives %s, the first gave %s", op, strings.Join(ap, ";"), clip(tvals(mkIns()), 300), i+2, clip(got, 300), clip(obs, 300)))
+			}
+			return
+		}
+	}
+}
+
 func attrOrderObservation(op string, attrs []attr, mkIns func() []tensor.Tensor, obs string) {
 	if len(attrs) < 2 {
 		return
@@ -673,6 +691,7 @@ func sideObservations(op string, attrs []attr, mkIns func() []tensor.Tensor, obs
 		effectsAll.Violations = append(effectsAll.Violations, fmt.Sprintf("%s [%s]: inputs changed by the call: before %s after %s", op, strings.Join(ap, ";"), clip(a, 400), clip(b, 400)))
 	}
 	refillObservation(op, attrs, mkIns)
+	determinismObservation(op, attrs, mkIns, obs)
 	attrOrderObservation(op, attrs, mkIns, obs)
 	aliasObservation(op, attrs, mkIns)
 	if os.Getenv("VERIF_VIEWS") != "" {
